@@ -1,7 +1,7 @@
 from checks import apifam, concfam
 GUARDS = {"BlockConservation.dup", "BlockConservation.lost", "ListsStayInPage", "OwnershipQuery", "DefaultFallsBack", "SetDefaultReturnsOld", "BackingHeap", "DestroyOfLiveHeap", "DeleteOfLiveHeap",
           "ContentsKept.gen", "ContentsKept.bytes", "ObsOfLiveBlock", "NoOverlap", "FreeOfLiveBlock", "CheckAllComplete", "QuiescentClean",
-          "WalkCount", "WalkEveryLiveOnce", "WalkOnlyLive"}
+          "WalkCount", "WalkEveryLiveOnce", "WalkOnlyLive", "DestructiveAvoidsLive", "LiveAccessible"}
 def run(tier, seed):
     # sequential part: heap programs (native + TLC-generated) against MiApi
     V, cov = apifam.run_api("C10", tier, seed, profiles=["c10"], builds=["rel", "dbg", "sec"], own_guards=GUARDS, crash_decisive=True, gen=(24, 200), finish=False)
@@ -11,6 +11,9 @@ def run(tier, seed):
         {"prog": "page-delete", "strategy": "pct", "runs": (150, 2000), "args": ["--snap", "3", "--spurious", "1"]},
         {"prog": "page-collect", "strategy": "random", "runs": (150, 2000), "args": ["--snap", "3", "--spurious", "2", "--rate", "2"]},
         {"prog": "page-delete", "strategy": "random", "runs": (100, 1500), "args": ["--snap", "3", "--size", "60000", "65536", "--spurious", "1"]},
+        # a first-class heap at work next to memory left behind by exited threads, then destroyed / deleted: exactly its own blocks
+        {"prog": "exit-heap", "strategy": "random", "runs": (30, 400), "args": ["--rate", "3"]},
+        {"prog": "exit-heap", "strategy": "pct", "runs": (20, 300), "args": [], "env": {"MIMALLOC_ABANDONED_RECLAIM_ON_FREE": "1"}},
     ]
     V, cov2 = concfam.run_conc("C10", tier, seed, jobs, GUARDS, step_guards=concfam.STEP_GUARDS, mc=("MiPage", ("MiPage_mc.cfg", "MiPage_mc_thorough.cfg")), guided_progs=("page-delete",),
                                V=V, finish=False)
